@@ -738,8 +738,10 @@ def result_unwraps(text, casts):
     return out
 
 
-def field_unwraps(text, casts):
-    """`instance[k].to_obj().to_str()`-style unchecked unwraps of an instance field"""
+def field_reads(text, casts):
+    """unwraps of an instance field, `instance[k].to_obj().to_str()` or through a name the field was bound to
+    (`let pattern = instance[k]; … pattern.to_obj().to_str()`) → list of (variable, index, kind, guarded):
+    guarded = a positive test of the same kind on the same expression dominates the unwrap"""
     out = []
     for m in re.finditer(r"\b(\w+)\[(\d+)\]", text):
         if m.group(1) in ("args", "_args"):
@@ -751,9 +753,44 @@ def field_unwraps(text, casts):
             kind = classify_chain(names, casts)
         except Unclassified:
             kind = "unknown"
-        if kind != "any" and not kind_guarded(text, m.start(), re.escape(m.group(0)), kind):
-            out.append((m.group(1), int(m.group(2)), kind))
+        if kind != "any":
+            out.append((m.group(1), int(m.group(2)), kind, kind_guarded(text, m.start(), re.escape(m.group(0)), kind)))
+    # the field bound to a name first
+    for m in re.finditer(r"\blet\s+(?:mut\s+)?(\w+)\s*(?::\s*Value\s*)?=\s*(\w+)\[(\d+)\]\s*;", text):
+        name, var, k = m.group(1), m.group(2), int(m.group(3))
+        if var in ("args", "_args"):
+            continue
+        # the name lives to the end of the block of its `let`
+        depth, end = 0, len(text)
+        for i in range(m.end(), len(text)):
+            if text[i] in "{([":
+                depth += 1
+            elif text[i] in "})]":
+                depth -= 1
+                if depth < 0:
+                    end = i
+                    break
+        for u in re.finditer(r"(?<![\w.])%s\b" % re.escape(name), text[m.end():end]):
+            names, _ = chain_at(text, m.end() + u.end())
+            if not names:
+                continue
+            try:
+                kind = classify_chain(names, casts)
+            except Unclassified:
+                kind = "unknown"
+            if kind != "any":
+                out.append((var, k, kind, kind_guarded(text, m.end() + u.start(), re.escape(name), kind)))
     return out
+
+
+def field_unwraps(text, casts):
+    """the unchecked ones of `field_reads`"""
+    return [(v, k, kind) for v, k, kind, guarded in field_reads(text, casts) if not guarded]
+
+
+def field_guarded(text, casts):
+    """the tested ones of `field_reads`"""
+    return [(v, k, kind) for v, k, kind, guarded in field_reads(text, casts) if guarded]
 
 
 def enclosing_fn(text, pos):
@@ -839,7 +876,7 @@ def collect_natives(repo, casts):
             d = os.path.dirname(rel)
             test_only.add(os.path.join(d, m.group(1) + ".rs"))
             test_only.add(os.path.join(d, m.group(1), "mod.rs"))
-    rows, results, fields, skipped = [], [], [], []
+    rows, results, fields, skipped, guarded_fields = [], [], [], [], []
     all_src = "\n".join(s for rel, s in srcs.items() if rel not in test_only)
     for rel, s in sorted(srcs.items()):
         if rel in test_only:
@@ -941,12 +978,16 @@ def collect_natives(repo, casts):
                     results.append((rel, "%s::%s" % (owner_name, fm.group(1)), kind, how))
                 for var, k, kind in field_unwraps(fb, casts):
                     fields.append((rel, "%s::%s" % (owner_name, fm.group(1)), "%s[%d]" % (var, k), kind))
+                for var, k, kind in field_guarded(fb, casts):
+                    guarded_fields.append((rel, "%s::%s" % (owner_name, fm.group(1)), "%s[%d]" % (var, k), kind))
         for mm in re.finditer(r"macro_rules!\s*(\w+)\s*\{", s2):
             mb = s2[mm.end():match_close(s2, mm.end() - 1)]
             for kind, how in result_unwraps(mb, casts):
                 results.append((rel, "macro %s!" % mm.group(1), kind, how))
             for var, k, kind in field_unwraps(mb, casts):
                 fields.append((rel, "macro %s!" % mm.group(1), "%s[%d]" % (var, k), kind))
+            for var, k, kind in field_guarded(mb, casts):
+                guarded_fields.append((rel, "macro %s!" % mm.group(1), "%s[%d]" % (var, k), kind))
         # free functions
         top = s2
         for fm in re.finditer(r"(?m)^(?:pub(?:\([a-z]+\))?\s+)?fn\s+(\w+)\s*(?:<[^>]*>)?\s*\(", top):
@@ -956,6 +997,8 @@ def collect_natives(repo, casts):
                 results.append((rel, "fn %s" % fm.group(1), kind, how))
             for var, k, kind in field_unwraps(fb, casts):
                 fields.append((rel, "fn %s" % fm.group(1), "%s[%d]" % (var, k), kind))
+            for var, k, kind in field_guarded(fb, casts):
+                guarded_fields.append((rel, "fn %s" % fm.group(1), "%s[%d]" % (var, k), kind))
     # the VM's own unwraps of `str()` results
     ops = strip_strings(strip_comments(read(repo, "laythe_vm/src/vm/ops.rs")))
     ib = fn_body(ops, r"unsafe fn op_interpolate\s*\(", "op_interpolate")
@@ -966,16 +1009,23 @@ def collect_natives(repo, casts):
     for f in sorted(glob.glob(os.path.join(repo, "laythe_vm", "src", "**", "*.rs"), recursive=True)):
         rel = os.path.relpath(f, repo)
         t = strip_strings(strip_test_modules(strip_comments(open(f).read())))
-        for m in re.finditer(r"\b(\w+)\[(\d+)\]", t):
-            for var, k, kind in field_unwraps(t[m.start():m.end() + 80], casts)[:1]:
-                fields.append((rel, "fn %s" % enclosing_fn(t, m.start()), "%s[%d]" % (var, k), kind))
+        for fm in re.finditer(r"\bfn\s+(\w+)\s*(?:<[^>]*>)?\s*\(", t):
+            bi = t.find("{", fm.end())
+            semi = t.find(";", fm.end())
+            if bi < 0 or (0 <= semi < bi):
+                continue
+            fb = t[bi:match_close(t, bi) + 1]
+            for var, k, kind in field_unwraps(fb, casts):
+                fields.append((rel, "fn %s" % fm.group(1), "%s[%d]" % (var, k), kind))
+            for var, k, kind in field_guarded(fb, casts):
+                guarded_fields.append((rel, "fn %s" % fm.group(1), "%s[%d]" % (var, k), kind))
     if len(rows) < 100:
         raise TranslateError("only %d natives found (expected well over 100)" % len(rows))
     counted = {}
     for r in results:
         counted[r] = counted.get(r, 0) + 1
     results = [(a, b, k, "%s x%d" % (h, n) if not h.startswith("stack") else h) for (a, b, k, h), n in counted.items()]
-    return rows, sorted(set(results)), sorted(set(fields)), skipped
+    return rows, sorted(set(results)), sorted(set(fields)), skipped, sorted(set(guarded_fields))
 
 
 def lean_ukind(k):
@@ -1045,7 +1095,7 @@ def value_classes(repo):
 def gen_natives(repo, out):
     info = gen_sigtable(repo, out)
     vcls = value_classes(repo)
-    rows, results, fields, skipped = collect_natives(repo, info["casts"])
+    rows, results, fields, skipped, guarded_fields = collect_natives(repo, info["casts"])
     pk = info["pkinds"]
     ok = info["okinds"]
     L = [HEADER % "laythe_lib/src/**/*.rs (+ laythe_core/src/signature.rs, object/mod.rs; laythe_vm/src/vm/ops.rs)",
@@ -1099,6 +1149,11 @@ def gen_natives(repo, out):
     L.append("/-- places where a *field of an instance* is unwrapped without a test (fields are assignable from Laythe) -/")
     L.append("def fieldUnwraps : List (String × String × String × UKind) := [")
     L.append(",\n".join("  (%s, %s, %s, %s)" % (lean_str(a), lean_str(b), lean_str(c), lean_ukind(k) if k != "unknown" else ".any") for a, b, c, k in fields))
+    L.append("]\n")
+    L.append("/-- places where a field of an instance is unwrapped *behind a test of its kind* (directly or through a name the\n"
+             "    field was bound to): (file, function, field, tested kind) -/")
+    L.append("def guardedFieldUnwraps : List (String × String × String × UKind) := [")
+    L.append(",\n".join("  (%s, %s, %s, %s)" % (lean_str(a), lean_str(b), lean_str(c), lean_ukind(k) if k != "unknown" else ".any") for a, b, c, k in guarded_fields))
     L.append("]\n")
     L.append("/-- `BuiltInPrimitives::for_value`: (enum, kind, class whose methods a value of that kind dispatches to);\n"
              "    `<meta>` = the class's meta class, `<instance>` = the instance's own class, `<box>` = the boxed value's class -/")
@@ -1206,7 +1261,20 @@ def gen_limits(repo, out):
     arms = re.findall(r"ObjectKind::(\w+)\s*\(\s*\w+\s*\)\s*=>\s*\{\s*self\.(\w+)\(", rc)
     if not re.search(r"if\s+!callee\.is_obj\(\)\s*\{", rc) or not re.search(r"_\s*=>\s*\{", rc):
         raise TranslateError("resolve_call: non-object test or default arm not found")
-    L = [HEADER % (rel + ", laythe_vm/src/vm/ops.rs, " + frel), "namespace LaytheVerif.Gen.Limits\n",
+    hook_arms, call_family, to_call_panics = hook_signals(repo)
+    # DC16.15: the standard library's sorts panic when they notice that the comparator is not a total order; a native must not
+    # sort with them (values of Laythe have no order of their own: every comparison of values is the program's comparator)
+    std_sorts = []
+    for f in sorted(glob.glob(os.path.join(repo, "laythe_lib", "src", "**", "*.rs"), recursive=True)):
+        r_ = os.path.relpath(f, repo)
+        t = strip_strings(strip_test_modules(strip_comments(open(f).read())))
+        for sm in re.finditer(r"\.\s*(sort|sort_by|sort_by_key|sort_by_cached_key|sort_unstable|sort_unstable_by|sort_unstable_by_key|"
+                              r"select_nth_unstable|select_nth_unstable_by|select_nth_unstable_by_key)\s*\(", t):
+            std_sorts.append(("%s:%s" % (r_, enclosing_fn(t, sm.start())), sm.group(1)))
+    display_depth, display_guard, display_impls = display_bound(repo)
+    L = [HEADER % (rel + ", laythe_vm/src/vm/ops.rs, laythe_vm/src/vm/hooks.rs, laythe_vm/src/vm/error.rs, " + frel +
+                   ", laythe_core/src/utils.rs, laythe_core/src/reference/obj_reference.rs, laythe_core/src/object/*.rs"),
+         "namespace LaytheVerif.Gen.Limits\n",
          "/-- `MAX_FRAME_SIZE` -/", "def maxFrameSize : Nat := %d\n" % max_frame,
          "/-- the initial stack of `Fiber::new` / `Fiber::split`: (function, slice the slots are copied from, number of slots requested) -/",
          "def fiberInitStack : List (String × String × String) := [" + ", ".join("(%s, %s, %s)" % (lean_str(a), lean_str(b), lean_str(c)) for a, b, c in fiber_init) + "]\n",
@@ -1223,6 +1291,169 @@ def gen_limits(repo, out):
          "def chanCapacityTests : List (String × String) := [" + ", ".join("(%s, %s)" % (lean_str(a), lean_str(b)) for a, b in chan_tests) + "]\n",
          "/-- object kinds `resolve_call` dispatches on, with the handler; every other kind and every non-object raises `… is not callable.` -/",
          "def resolveCallArms : List (String × String) := [" + ", ".join("(%s, %s)" % (lean_str(a), lean_str(b)) for a, b in arms) + "]\n",
+         "/-- every `match self.resolve_call(..)` of the VM outside the interpreter loop: (file:function, callee expression,\n"
+         "    signals with an arm of their own, what the `_` arm does) -/",
+         "def resolveCallMatches : List (String × String × List String × String) := [" +
+         ", ".join("(%s, %s, [%s], %s)" % (lean_str(a), lean_str(b), ", ".join(lean_str(x) for x in c), lean_str(d)) for a, b, c, d in hook_arms) + "]\n",
+         "/-- the functions a call resolved by `resolve_call` runs through before a signal comes back (closure of `self.f(..)`\n"
+         "    calls among the functions of vm/ops.rs and vm/error.rs that answer an `ExecutionSignal`), each with the signals its text names -/",
+         "def callFamily : List (String × List String) := [" +
+         ", ".join("(%s, [%s])" % (lean_str(a), ", ".join(lean_str(x) for x in b)) for a, b in call_family) + "]\n",
+         "/-- `to_call_result`: the variants of `ExecutionResult` whose arm is an unconditional `internal_error` -/",
+         "def toCallResultPanics : List String := [" + ", ".join(lean_str(x) for x in to_call_panics) + "]\n",
+         "/-- calls of the standard library's sorting routines in laythe_lib (tests excluded): (file:function, routine) -/",
+         "def libStdSorts : List (String × String) := [" + ", ".join("(%s, %s)" % (lean_str(a), lean_str(b)) for a, b in std_sorts) + "]\n",
+         "/-- `DISPLAY_MAX_DEPTH` (laythe_core/src/utils.rs) -/", "def displayMaxDepth : Nat := %d\n" % display_depth,
+         "/-- `fmt_nested`: the test under which the nested values are *not* written (`...` is written instead) -/",
+         "def displayGuard : String := %s\n" % lean_str(display_guard),
+         "/-- the `Display` impls `ObjectRef`'s Display dispatches to: (object kind, type, writes another value / iterates,\n"
+         "    every such write sits inside the closure handed to `fmt_nested`) -/",
+         "def displayImpls : List (String × String × Bool × Bool) := [" +
+         ", ".join("(%s, %s, %s, %s)" % (lean_str(a), lean_str(b), "true" if c else "false", "true" if d else "false") for a, b, c, d in display_impls) + "]\n",
          "end LaytheVerif.Gen.Limits\n"]
     write_if_changed(os.path.join(out, "Limits.lean"), "\n".join(L))
     return max_frame
+
+
+def hook_signals(repo):
+    """DC16.10: which signals of a resolved call the hooks (`run_fun`, `run_method`) and `runtime_error` have an arm for,
+    and which signals the functions behind `resolve_call` can answer"""
+    fns = {}
+    for rel in ("laythe_vm/src/vm/ops.rs", "laythe_vm/src/vm/error.rs"):
+        t = strip_strings(strip_comments(read(repo, rel)))
+        for fm in re.finditer(r"\bfn\s+(\w+)\s*(?:<[^>]*>)?\s*\(", t):
+            j = match_close(t, fm.end() - 1, "(", ")")
+            hm = re.match(r"\s*->\s*(Option<\s*ExecutionSignal\s*>|ExecutionSignal)\s*\{", t[j + 1:])
+            if not hm:
+                continue
+            bi = j + 1 + hm.end() - 1
+            fns[fm.group(1)] = t[bi:match_close(t, bi) + 1]
+    if "resolve_call" not in fns or "call_native" not in fns:
+        raise TranslateError("resolve_call / call_native answering ExecutionSignal not found")
+    family, todo = [], ["resolve_call"]
+    while todo:
+        f = todo.pop()
+        if f in family:
+            continue
+        family.append(f)
+        for cm in re.finditer(r"\bself\s*\.\s*(\w+)\s*\(", fns[f]):
+            if cm.group(1) in fns and cm.group(1) not in family:
+                todo.append(cm.group(1))
+    order = ["Ok", "OkReturn", "ContextSwitch", "Exit", "RuntimeError", "CompileError"]
+    call_family = []
+    for f in sorted(family):
+        sigs = set(re.findall(r"ExecutionSignal::(\w+)", fns[f]))
+        unknown = sigs - set(order)
+        if unknown:
+            raise TranslateError("%s names unknown signals %s" % (f, sorted(unknown)))
+        call_family.append((f, [x for x in order if x in sigs]))
+    arms = []
+    for rel in sorted(glob.glob(os.path.join(repo, "laythe_vm", "src", "vm", "*.rs"))):
+        r_ = os.path.relpath(rel, repo)
+        t = strip_test_modules(strip_comments(open(rel).read()))
+        for mm in re.finditer(r"\bmatch\s+self\s*\.\s*resolve_call\(\s*([^,]+?)\s*,", t):
+            bi = t.index("{", mm.end())
+            body = t[bi + 1:match_close(t, bi)]
+            parts = [x.strip() for x in split_top(body, ",") if x.strip()]
+            own, default = [], ""
+            for a in parts:
+                am = re.match(r"ExecutionSignal::(\w+)\s*=>", a)
+                if am:
+                    own.append(am.group(1))
+                elif re.match(r"_\s*=>", a):
+                    default = norm(strip_strings(a[a.index("=>") + 2:]))
+                else:
+                    raise TranslateError("%s: arm of `match self.resolve_call(..)` not understood: %r" % (r_, norm(a)[:80]))
+            arms.append(("%s:%s" % (r_[len("laythe_vm/src/"):], enclosing_fn(t, mm.start())), norm(mm.group(1)), own, default))
+    if not any(a[0] == "vm/hooks.rs:run_fun" for a in arms) or not any(a[0] == "vm/hooks.rs:run_method" for a in arms):
+        raise TranslateError("hooks.rs: `match self.resolve_call(..)` of run_fun / run_method not found")
+    hk = strip_strings(strip_comments(read(repo, "laythe_vm/src/vm/hooks.rs")))
+    tb = fn_body(hk, r"fn to_call_result\s*\(", "to_call_result")
+    mi = tb.index("{", tb.index("match execute_result"))
+    panics = []
+    for a in split_top(tb[mi + 1:match_close(tb, mi)], ","):
+        am = re.match(r"\s*ExecutionResult::(\w+)(?:\([^)]*\))?\s*=>\s*(.*)$", a, flags=re.S)
+        if not am:
+            if a.strip():
+                raise TranslateError("to_call_result: arm not understood: %r" % norm(a)[:80])
+            continue
+        if re.match(r"\{?\s*self\.internal_error\(", am.group(2)):
+            panics.append(am.group(1))
+    return arms, call_family, panics
+
+
+def display_bound(repo):
+    """DC16.11: the bound of Display's native recursion (`fmt_nested`) and the Display impls that go through it"""
+    u = strip_comments(read(repo, "laythe_core/src/utils.rs"))
+    dm = re.search(r"const DISPLAY_MAX_DEPTH\s*:\s*usize\s*=\s*(\d+)\s*;", u)
+    if not dm:
+        raise TranslateError("utils.rs: DISPLAY_MAX_DEPTH not found")
+    fb = fn_body(u, r"pub fn fmt_nested\s*\(", "fmt_nested")
+    # let enter = DISPLAYING.with(|displaying| { let mut displaying = ..; if <guard> { return false; } displaying.push(address); true });
+    gm = re.search(r"let\s+enter\s*=\s*DISPLAYING\.with\(\|displaying\|\s*\{\s*let\s+mut\s+displaying\s*=\s*displaying\.borrow_mut\(\)\s*;\s*"
+                   r"if\s+([^{]+?)\s*\{\s*return\s+false\s*;\s*\}\s*displaying\.push\(address\)\s*;\s*true\s*\}\s*\)\s*;\s*"
+                   r"if\s+!enter\s*\{\s*return\s+write!\(f,\s*\"\.\.\.\"\)\s*;\s*\}\s*"
+                   r"let\s+result\s*=\s*nested\(f\)\s*;\s*DISPLAYING\.with\(\|displaying\|\s*displaying\.borrow_mut\(\)\.pop\(\)\)\s*;\s*result\s*$", fb)
+    if not gm:
+        raise TranslateError("utils.rs: fmt_nested changed shape (test; push; nested(f); pop)")
+    guard = norm(gm.group(1))
+    # the impls ObjectRef's Display dispatches to
+    orf = strip_comments(read(repo, "laythe_core/src/reference/obj_reference.rs"))
+    im = re.search(r"impl\s+fmt::Display\s+for\s+ObjectRef\s*\{", orf)
+    if not im:
+        raise TranslateError("impl fmt::Display for ObjectRef not found")
+    ib = orf[im.end():match_close(orf, im.end() - 1)]
+    kinds = re.findall(r"ObjectKind::(\w+)\(\s*(\w+)\s*\)\s*=>\s*write!\(\s*f\s*,\s*\"\{(\w+)\}\"\s*\)", ib)
+    if len(kinds) != len(re.findall(r"ObjectKind::\w+", ib)) or not kinds or any(a != b for _, a, b in kinds):
+        raise TranslateError("Display for ObjectRef: an arm is not `ObjectKind::K(x) => write!(f, \"{x}\")`")
+    type_of = {"String": "LyStr"}
+    impls = []
+    files = sorted(glob.glob(os.path.join(repo, "laythe_core", "src", "object", "**", "*.rs"), recursive=True))
+    texts = {os.path.relpath(f, repo): strip_test_modules(strip_comments(open(f).read())) for f in files}
+    for kind, _, _ in kinds:
+        ty = type_of.get(kind, kind)
+        found = None
+        for rel_, t in texts.items():
+            m = re.search(r"impl(?:\s*<[^>]*>)?\s+(?:fmt::)?Display\s+for\s+%s\b[^{]*\{" % ty, t)
+            if m:
+                found = t[m.end():match_close(t, m.end() - 1)]
+                break
+        if found is None:
+            raise TranslateError("no `impl Display for %s` under laythe_core/src/object" % ty)
+        # a write of something that may be a value again: an interpolated name / argument that is not a `{:p}` pointer,
+        # `self.name()`-like text or the object's own string data
+        def nested_writes(text):
+            n = 0
+            blank = strip_strings(text)   # same length: brackets inside string literals do not count
+            for w in re.finditer(r"write!\(", blank):
+                inner = text[w.end():match_close(blank, w.end() - 1, "(", ")")]
+                pm = re.fullmatch(r'\s*f\s*,\s*"((?:[^"\\]|\\.)*)"\s*(?:,(.*))?', inner, flags=re.S)
+                if not pm:
+                    raise TranslateError("Display for %s: write! not understood: %r" % (ty, norm(inner)[:80]))
+                fmt = pm.group(1)
+                argl = [a.strip() for a in split_top(pm.group(2), ",") if a.strip()] if pm.group(2) else []
+                holes = re.findall(r"\{([^{}]*)\}", fmt.replace("{{", "").replace("}}", ""))
+                ai = 0
+                for h in holes:
+                    name, _, spec = h.partition(":")
+                    if name:
+                        expr = name
+                    else:
+                        expr = argl[ai] if ai < len(argl) else "?"
+                        ai += 1
+                    if spec == "p":
+                        continue
+                    # the object's own name (a string) is not a value that nests
+                    if re.fullmatch(r"&?\*?self\.(class\(\)\.)?name(\(\))?", expr):
+                        continue
+                    n += 1
+            n += len(re.findall(r"\bfor\b[^{]*\bin\b", text))
+            return n
+        total = nested_writes(found)
+        inside = 0
+        fm_ = re.search(r"fmt_nested\(\s*f\s*,[^|]*\|f\|\s*\{", found)
+        if fm_:
+            cb = found[fm_.end():match_close(strip_strings(found), fm_.end() - 1)]
+            inside = nested_writes(cb)
+        impls.append((kind, ty, total > 0, total > 0 and inside == total))
+    return int(dm.group(1)), guard, impls
